@@ -263,17 +263,28 @@ def run_oracles(prog, meta, sessions):
             exp = []
             seen = {}
             distinct_checkers = True
+            requeried = set()
             for (k, tgt, c) in ops:
                 if tgt in seen:
-                    if seen[tgt] != (k, c): distinct_checkers = False
+                    pk, pc, pos = seen[tgt]
+                    if k == 'Q' and pk == 'Q':
+                        # the same task required again: the dependency keeps its place, and carries the checker (and stamp) of
+                        # the LATEST require -- the one whose output was returned to the requirer last
+                        if pc != c: requeried.add(tgt)
+                        exp[pos] = (k, tgt, c); seen[tgt] = (k, c, pos)
+                    elif (pk, pc) != (k, c): distinct_checkers = False
                     continue
-                seen[tgt] = (k, c)
+                seen[tgt] = (k, c, len(exp))
                 exp.append((k, tgt, c))
             if not distinct_checkers:
-                continue   # several dependencies on one target with different kinds/checkers: recorded finding territory
+                continue   # read/write dependencies on one resource with different kinds/checkers: recorded finding territory
             got = [(k, tgt, c) for (k, tgt, c, st) in nd['outs']]
             if got != exp:
-                out.append(('C08', 'recorded-deps-differ', '%s: task %d performed %r in its latest execution but the store records %r' % (where, t, exp, got)))
+                bad = [g for g, e_ in zip(got, exp) if g != e_]
+                if len(got) == len(exp) and bad and all(g[1] in requeried for g in bad):
+                    out.append(('C09', 'require-record-not-latest', '%s: task %d required %s more than once with different checkers; the store records %r, the latest require used %r' % (where, t, bad[0][1], got, exp)))
+                else:
+                    out.append(('C08', 'recorded-deps-differ', '%s: task %d performed %r in its latest execution but the store records %r' % (where, t, exp, got)))
             else:
                 for (k, tgt, c, st) in nd['outs']:
                     es = ev_stamps.get((t, k, tgt))
